@@ -4,6 +4,7 @@ go 1.26
 
 require (
 	github.com/cbeuw/Cloak v0.0.0
+	github.com/gorilla/websocket v1.5.3
 	github.com/refraction-networking/utls v1.7.3
 	github.com/sirupsen/logrus v1.9.3
 	golang.org/x/crypto v0.37.0
@@ -13,7 +14,6 @@ require (
 	github.com/andybalholm/brotli v1.1.1 // indirect
 	github.com/cloudflare/circl v1.6.1 // indirect
 	github.com/gorilla/mux v1.8.1 // indirect
-	github.com/gorilla/websocket v1.5.3 // indirect
 	github.com/juju/ratelimit v1.0.2 // indirect
 	github.com/klauspost/compress v1.18.0 // indirect
 	go.etcd.io/bbolt v1.4.0 // indirect
